@@ -98,6 +98,13 @@ func c08Frags(r *plan.Rng) []c08Frag {
 			"r5 := mymod.twice(inp) + mymod.base",
 			"r5s := mymod.name[inp % 5]",
 			"r5l := mymod.label(ins)"}},
+		{name: "srcModuleExportsMutated", mods: []string{"mymod"}, lines: []string{
+			"mx := import(\"mymod\")",
+			"mx.tbl[0] = inp",
+			"mx.cfg.n = inp + 1",
+			"mx.cfg.l[0] = ins",
+			"my := import(\"mymod\")",
+			"r5m := mx.tbl[0] + my.tbl[0] + mx.cfg.n + my.cfg.n + len(mx.cfg.l[0])"}},
 		{name: "srcModule2", mods: []string{"mymod", "othermod"}, lines: []string{
 			"mm1 := import(\"mymod\")",
 			"om := import(\"othermod\")",
@@ -255,7 +262,9 @@ var c08ModSrc = map[string]string{
 		"	t := [1, 2]",
 		"	return t[x + 100] + undefined_here(x)",
 		"}",
-		"export {base: base, name: name, twice: twice, label: label, fail: fail}"),
+		"tbl := [1, 2, 3]",
+		"cfg := {n: 0, l: [0]}",
+		"export {base: base, name: name, twice: twice, label: label, fail: fail, tbl: tbl, cfg: cfg}"),
 	"othermod": lines(
 		"mymod := import(\"mymod\")",
 		"greet := \"grüß\"",
